@@ -22,6 +22,9 @@ structure PulseIn where
   dd : Bool := false
   ref : Nat := 0
   sum : PulseSummary := {}
+  const : Bool := false     -- both waveforms constant, with the values below
+  amp : Rat := 0
+  det : Rat := 0
   deriving DecidableEq, Repr, Inhabited
 
 /-- Parameters of `enable_eom_mode` / `modify_eom_setpoint`. -/
@@ -186,7 +189,7 @@ def validateAndAdjust (c : ChanState) (p : PulseIn) (phaseRef : Option Rat) :
   if d ≠ p.dur ∧ !p.resizable then throw .notResizable
   let ph := fmtPhase (p.phase + (match phaseRef with | some r => r | none => 0))
   .ok { dur := d, phase := ph, post := p.post, fallStd := p.fallStd, fallEom := p.fallEom,
-        dd := p.dd, ref := p.ref, sum := p.sum }
+        dd := p.dd, ref := p.ref, sum := p.sum, const := p.const, amp := p.amp, det := p.det }
 
 /-- `argmin |opts - x|` (first on ties); `none` when there are no options. -/
 def closestIdx (opts : List Rat) (x : Rat) : Option Nat :=
@@ -292,8 +295,10 @@ def delayCore (s : SeqState) (d : Int) (n : ChName) (atRest : Bool) : Raw :=
   (if atRest then s.withChan n fun c => CRes.lift c (waitForFall s.dev.maxSeqDur c)
    else done s).bind fun s =>
     if d = 0 then done s
-    else if d < 0 then fail s .durTooShort
-    else s.withChan n fun c => CRes.lift c (addDelay s.dev.maxSeqDur c d.toNat)
+    else s.withChan n fun c =>
+      -- `add_delay` reads the last slot first, then validates the duration
+      CRes.lift c (if d < 0 then (do let _ ← c.last; .error .durTooShort)
+                   else addDelay s.dev.maxSeqDur c d.toNat)
 
 /-- The loop of `Sequence.align`. -/
 def alignLoop (tf : Int) (lastTs : List (ChName × Int)) (s : SeqState) : Raw :=
@@ -394,6 +399,7 @@ def stepRaw (s : SeqState) (op : Op) : Raw :=
       -- on the values the harness generates; monitored there)
       let p : PulseIn := { dur := dur, resizable := true, phase := fmtPhase phase, post := post,
                            fallStd := fs, fallEom := fe, dd := (b.amp == 0), ref := ref,
+                           const := true, amp := b.amp, det := b.detOn,
                            sum := { maxAmp := b.amp, avgAmp := b.amp, maxAbsDetR := absDet,
                                     maxDetR := b.detOn, minDetR := b.detOn } }
       addCore s p n proto (if corr then some (lastEomPulseDrift c) else none)
